@@ -143,6 +143,20 @@ def run(chk):
             if got != o["expected"]:
                 chk.violation("corpus program prints %s, distinct handles give %s" % (got, o["expected"]),
                               {"match_key": o.get("known"), "source": o["source"], "kind": "corpus"})
+    # rotations by angles that are not finite numbers (float overflow, inf - inf): the state must stay a unit vector, i.e. the
+    # operation is refused; the Lean evaluator is the reference (class-free programs)
+    big = "(300000000000000000000000000000000000000.0f * 300000000000000000000000000000000000000.0f * 300000000000000000000000000000000000000.0f * 300000000000000000000000000000000000000.0f * 300000000000000000000000000000000000000.0f)"
+    nf = []
+    for g in ("rx", "ry", "rz"):
+        for ang in ("(%s * %s)" % (big, big), "(0.0f - %s * %s)" % (big, big), "((%s * %s) - (%s * %s))" % (big, big, big, big), "1.5f"):
+            nf.append(("function main() -> void { qubit q; h(q); float a = %s; %s(q, a); qubit r; x(r); bit c = measure r; echo(c); }" % (ang, g), [0.3, 0.3]))
+    _l9, nimpl, nmodel, _i9 = _ev.run_programs(nf)
+    for (src, ds), a, m in zip(nf, nimpl, nmodel):
+        chk.count(("non-finite-angle", src))
+        if not _ev.same_result(a, m) and bad is None and qbad is None:
+            chk.violation("rotation by a non-finite angle: implementation %s, reference %s\n%s" % (a[:120], m[:120], src),
+                          {"source": src, "kind": "corpus"})
+            break
     if qbad:
         qp, ql, w = qbad
         chk.violation("quantum object program (constant draw %.1f): %s\n%s" % (qp.draw, w, qp.text[-900:]),
